@@ -50,8 +50,8 @@ def showRes (os : List Order) : String :=
   ";".intercalate (os.map fun o =>
     s!"{o.id}:{o.opn}:{o.paid}:{o.received}:{if o.isMatched then 1 else 0}")
 
-/-- the real results, as orders: static fields from the pre-state, `fills` from the model's post-state -/
-def parseRes (pre : List Order) (modelPost : List Order) (s : String) : Option (List Order) :=
+/-- the real results, as orders: static fields from the pre-state, `fills` (ghost) from the model's post-state -/
+def parseRes (pre : List Order) (modelPost : List Order) (s : String) (diverged : Bool := false) : Option (List Order) :=
   if s = "" then (if pre.isEmpty then some [] else none) else
   let parts := s.splitOn ";"
   if parts.length ≠ pre.length then none else
@@ -63,7 +63,10 @@ def parseRes (pre : List Order) (modelPost : List Order) (s : String) : Option (
       let opn ← parseInt? opn
       let paid ← parseInt? paid
       let recv ← parseInt? recv
-      let fills := match modelPost.find? (·.id == o.id) with | some m => m.fills | none => o.fills
+      -- number of individual fills: the model's count; when model and code disagree on this call (a DIFF is printed)
+      -- the count is unknown and the generous bound "one fill per order of the book, plus one" is used instead
+      let fills := if diverged then (if opn < o.opn then o.fills + pre.length + 1 else o.fills)
+        else match modelPost.find? (·.id == o.id) with | some m => m.fills | none => o.fills
       pure { o with opn, paid, received := recv, fills }
     | _ => none
 
@@ -98,7 +101,7 @@ def finish (st : St) (seq : String) (modelHead : String) (modelPost : Option (Li
   let modelLine := s!"{modelHead}\t{showRes mpost}"
   let implLine := s!"{implHead}\t{res}"
   let d := if modelLine = implLine then [] else [s!"DIFF\t{seq}\tmodel={modelLine}\timpl={implLine}"]
-  match parseRes pre mpost res with
+  match parseRes pre mpost res (diverged := !d.isEmpty) with
   | none => (st, [s!"BAD\t{seq}\tcannot parse results {res}"])
   | some real =>
     let q := if qcd = "-" then none else parseInt? qcd
